@@ -45,26 +45,30 @@ def ctxOfLastSent (s : St Int) : Ctx :=
   | some n => n.ctx
   | none => {}
 
-def downTraceStr (s : St Int) : String :=
-  let l := (if s.handed then ["Nch/-"] else []) ++
+def downTraceStr (sub : Ctx) (s : St Int) : String :=
+  let l := (if s.handed then ["Nch/" ++ renderCtx sub] else []) ++
            (if s.destCompleted then ["C/" ++ renderCtx (ctxOfLastSent s)] else [])
   if l.isEmpty then "-" else ",".intercalate l
 
 def failsStr (s : St Int) : String :=
   renderErrs ((s.fails.map (fun x => (failedSend x).unhandled)).flatten)
 
+/-- what reaches the caller: nothing from failed sends; the source's teardown panic (p7), wrapped
+    by the two `execFinalizer`s it crosses, after the deferred `stop()` has run -/
 def escapedStr (s : St Int) : String :=
-  if (s.fails.all (fun x => (failedSend x).escaped.isNone)) then "-" else "panic"
+  if !(s.fails.all (fun x => (failedSend x).escaped.isNone)) then "panic"
+  else if s.raised then "tdpanic" else "-"
 
 def dropsStr (s : St Int) : String :=
   let l := s.dropsDown.map renderNotifBare ++ s.dropsUp.map renderNotifBare ++ (if s.handDropped then ["Nch"] else [])
   if l.isEmpty then "-" else ",".intercalate l
 
-def toChannelRes (s : St Int) : String :=
-  s!"read={renderBare s.got} closed={if s.closed then 1 else 0} closes={s.closes} trace={downTraceStr s} drops={dropsStr s} unh={failsStr s} escaped={escapedStr s}"
+def toChannelRes (sub : Ctx) (s : St Int) : String :=
+  s!"read={renderBare s.got} closed={if s.closed then 1 else 0} closes={s.closes} trace={downTraceStr sub s} drops={dropsStr s} unh={failsStr s} escaped={escapedStr s}"
 
-def detachRes (s : St Int) : String :=
-  s!"trace={renderTrace s.out} drops={dropsStr s} unh={failsStr s} escaped={escapedStr s}"
+def detachRes (s : St Int) (tdp : Bool := false) : String :=
+  s!"trace={renderTrace s.out} drops={dropsStr s} unh={failsStr s} escaped={escapedStr s}" ++
+    (if tdp then s!" gone={if s.closed then 1 else 0}" else "")
 
 /-- FromChannel: values `vs`, user closes or abandons, `Unsubscribe()` before value `cut` -/
 def runFrom (cap : Nat) (sub : Ctx) (vs : List Int) (willClose : Bool) (cut : Option Nat) : FSt Int :=
@@ -95,12 +99,13 @@ def run (c : Case) : String :=
   let cap := (c.getD "cap" "1").toNat?.getD 1
   let hot := c.getD "mode" "sync" == "hot"
   let cut := (c.get "cut").bind String.toNat?
+  let tdp := c.getD "tdp" "0" == "1"
   match parseScript sub (c.getD "src" "-") with
   | none => s!"res {c.id} bad-script"
   | some raw =>
     match c.getD "op" "?" with
-    | "ToChannel" => s!"res {c.id} {toChannelRes (runPipe { cap := cap, toChan := true, hot := hot } raw cut)}"
-    | "ObserveOn" => s!"res {c.id} {detachRes (runPipe { cap := cap, hot := hot } raw cut)}"
+    | "ToChannel" => s!"res {c.id} {toChannelRes sub (runPipe { cap := cap, toChan := true, hot := hot, upPanic := tdp } raw cut)}"
+    | "ObserveOn" => s!"res {c.id} {detachRes (runPipe { cap := cap, hot := hot, upPanic := tdp } raw cut) tdp}"
     | "SubscribeOn" =>
       -- Subscribe returns only when the stream has ended: the harness runs terminated scripts only
       if ending raw == .never || cut.isSome then s!"res {c.id} unsupported"
@@ -136,7 +141,7 @@ def runV (c : Case) : String :=
   | some raw =>
     let op := c.getD "op" "?"
     if c.getD "scen" "-" == "park" then
-      s!"res {c.id} {toChannelRes (runPark cap raw)}"
+      s!"res {c.id} {toChannelRes sub (runPark cap raw)}"
     else if op == "FromChannel" then
       s!"res {c.id} full={renderTrace ((valsOf raw).map (Notif.next sub) ++ [Notif.complete sub])} bound={cap + 2}"
     else if op == "ToChannel" then
